@@ -101,6 +101,10 @@ pub struct Sim<P: Protocol> {
     pub delivered: Vec<(Time, u16, Vec<u8>)>, // frames written to interfaces (time, node port, bytes)
     pub node_ids: HashMap<[u8; 16], (u16, u32)>,
     pub dropped_by_net: u64,
+    /// extra addresses that lead to a node (port forwarding, hair-pinning): address -> node port
+    pub alias: HashMap<SocketAddr, u16>,
+    /// address translation: datagrams of this node arrive with another source address
+    pub seen_as: HashMap<u16, SocketAddr>,
 }
 
 pub fn base_config(mode: Mode) -> Config {
@@ -129,6 +133,8 @@ impl<P: Protocol> Sim<P> {
             delivered: vec![],
             node_ids: HashMap::new(),
             dropped_by_net: 0,
+            alias: HashMap::new(),
+            seen_as: HashMap::new(),
         }
     }
 
@@ -193,8 +199,12 @@ impl<P: Protocol> Sim<P> {
     fn route(&mut self, d: &Dgram) {
         let to = match self.idx_of(&d.to) {
             Some(j) => j as u16 + 1,
-            None => return, // nobody listens there
+            None => match self.alias.get(&d.to) {
+                Some(p) => *p,
+                None => return, // nobody listens there
+            },
         };
+        let src = self.seen_as.get(&d.from).copied().unwrap_or_else(|| addr_of(d.from));
         if self.faults.silent.contains(&d.from) || self.faults.cut.contains(&(d.from, to)) {
             self.dropped_by_net += 1;
             return;
@@ -211,7 +221,7 @@ impl<P: Protocol> Sim<P> {
                 0
             };
             self.seq += 1;
-            self.queue.push(InFlight { due: self.now + delay, seq: self.seq, src: addr_of(d.from), to, id: d.id, bytes: d.bytes.clone() });
+            self.queue.push(InFlight { due: self.now + delay, seq: self.seq, src, to, id: d.id, bytes: d.bytes.clone() });
         }
     }
 
